@@ -380,8 +380,17 @@ inline Run run_form_isolated(const std::string& form, const Input& in, bool none
   catch (...) { Run r; r.exception = "harness: unreadable result of the child process"; return r; }
 }
 // forms / inputs that are run in a child process (see findings/C11.json: they crash the unpatched engine)
+inline bool& isolate_all() { static bool b = false; return b; }
 inline bool needs_isolation(const std::string& form, const Input& in) {
-  return form == "auto_upper_of_lower" || (in.n >= 128 && clamp_dim(in.n, in.dmax) >= 120);
+  return isolate_all() || form == "auto_upper_of_lower" || (in.n >= 128 && clamp_dim(in.n, in.dmax) >= 120);
+}
+// which 128-bit integer this build uses (gudhi/uint128.h): the compiler's, or the fallback class of platforms without one
+inline const char* build_name() {
+#ifdef GUDHI_FORCE_FAKE_UINT128
+  return sizeof(T) == 4 ? "float+fallback_uint128" : "double+fallback_uint128";
+#else
+  return value_name();
+#endif
 }
 inline bj::array jedges(const Input& in) {
   bj::array a;
